@@ -411,7 +411,6 @@ func freshOrCollectionOnEveryEdge(v ssa.Value) bool {
 var sinkOK = map[string]string{
 	"(*pkg/mlrval.Mlrval).StringifyValuesRecursively": "--jvquoteall / json_stringify: documented re-rendering of every value as a string",
 	"(*pkg/mlrval.Mlrmap).StringifyValuesRecursively": "--jvquoteall: documented re-rendering of every value as a string on JSON output",
-	"(*pkg/mlrval.MlrmapEntry).JSONParseInPlace":      "json-parse verb: the named field is assigned its parsed value (an assignment, by documentation)",
 	"(*pkg/mlrval.RecordArena).newValue":              "slab allocation: the slot is a fresh value being initialised with the input text",
 }
 
